@@ -166,6 +166,9 @@ class VInterp(sym.Interp):
             return sp.Integer({"Shl": x << y, "Shr": x >> y, "BitAnd": x & y, "BitOr": x | y, "BitXor": x ^ y}[op])
         if op in ("Eq", "Ne") and isinstance(a, (int, sp.Integer)) and isinstance(b, (int, sp.Integer)):
             return sp.true if ((a == b) == (op == "Eq")) else sp.false
+        if op == "Sub" and n.get("ty") in ("usize", "u8", "u16", "u32", "u64") and getattr(a, "is_Integer", False) and getattr(b, "is_Integer", False) and a < b:
+            # unsigned subtraction below zero: panic in debug builds, wrap-around in release builds — neither is a value the caller wants
+            raise IndexPanic(n, "unsigned subtraction %s - %s underflows (%s)" % (a, b, n.get("ty")))
         return self.binop(op, self.num(a, n["l"]), self.num(b, n["r"]), n)
 
     def ev_AssignOp(self, n):
@@ -567,6 +570,11 @@ class VInterp(sym.Interp):
             return sym.MATH_METHODS[name](self.num(rv, n))
         if name in ("powi", "pow", "powf", "powc"):
             return self.num(rv, n) ** self.num(self.ev(n["args"][0]), n)
+        if name in ("saturating_sub", "abs_diff") and len(n["args"]) == 1:
+            a, b = self.num(rv, n), self.num(self.ev(n["args"][0]), n)
+            if getattr(a, "is_Integer", False) and getattr(b, "is_Integer", False):
+                return sp.Integer(max(int(a) - int(b), 0)) if name == "saturating_sub" else sp.Integer(abs(int(a) - int(b)))
+            return sp.Max(a - b, 0) if name == "saturating_sub" else sp.Abs(a - b)
         if name in ("is_finite", "is_nan", "is_infinite"):
             return sp.Function(name)(self.num(rv, n))
         if name == "modulus_squared":
@@ -586,6 +594,10 @@ class VInterp(sym.Interp):
             return None
         if name == "pop":
             return sym.Variant("Some", [v.pop()]) if v else sym.Variant("None")
+        if name in ("reserve", "reserve_exact", "shrink_to_fit", "shrink_to"):
+            for a in n["args"]:
+                self.ev(a)          # capacity hints do not change the value (their argument is still evaluated: it may underflow)
+            return None
         if name == "insert":
             i = int(self.ev(n["args"][0]))
             v.insert(i, self.deref(self.ev(n["args"][1])))
